@@ -184,10 +184,14 @@ type evLaunchSpec struct {
 	EnvCmdBad bool              `json:"env_cmd_bad"` // several env_cmds, one of them fails: the others still count
 }
 
+// names of the variables defined in the three layers; two pairs differ only
+// in case - on Linux these are distinct variables (seeded change C17-r4-1)
+var evLaunchKeys = []string{"PCV_K0", "PCV_K1", "PCV_K2", "PCV_K3", "pcv_k0", "Pcv_K1"}
+
 func genEvLaunch(rng *rand.Rand, real bool) evLaunchSpec {
 	sp := evLaunchSpec{Inherited: map[string]string{}, Real: real}
 	vals := []string{"x", "a b", "a=b", "", "üni", "q:r", "12"}
-	keys := []string{"PCV_K0", "PCV_K1", "PCV_K2", "PCV_K3"}
+	keys := evLaunchKeys
 	for _, k := range keys {
 		if rng.Intn(2) == 0 {
 			sp.Inherited[k] = "inh-" + vals[rng.Intn(len(vals))]
@@ -233,7 +237,7 @@ func runEnvLaunch(c fw.Case) fw.Result {
 	var sp evLaunchSpec
 	c.Params(&sp)
 	r := fw.Result{NonTrivial: true}
-	keys := []string{"PCV_K0", "PCV_K1", "PCV_K2", "PCV_K3", "PCV_CMD", "PC_PCV_OUTER"}
+	keys := append(append([]string{}, evLaunchKeys...), "PCV_CMD", "PC_PCV_OUTER")
 	for _, k := range keys {
 		os.Unsetenv(k)
 	}
@@ -310,7 +314,7 @@ func runEnvLaunch(c fw.Case) fw.Result {
 		if eff["PC_REPLICA_NUM"] != fmt.Sprint(replica) {
 			r.Add("C17", "launch-env:PC_REPLICA_NUM", "%s: PC_REPLICA_NUM=%q, expected %d", who, eff["PC_REPLICA_NUM"], replica)
 		}
-		for _, k := range []string{"PCV_K0", "PCV_K1", "PCV_K2", "PCV_K3"} {
+		for _, k := range evLaunchKeys {
 			want, defined, layer := "", false, ""
 			if v, ok := inh[k]; ok {
 				want, defined, layer = v, true, "inherited"
